@@ -477,6 +477,12 @@ def check_case(classes, edges, opts):
 
 def case_in_known(classes, edges, opts):
     mods = [c[0] for c in classes]
+    if opts.get("use_exact_imports"):
+        # known finding C12-exact-base-and-member: one foreign class used as base and as member type in one module
+        for s1, d1, b1 in edges:
+            for s2, d2, b2 in edges:
+                if b1 and not b2 and d1 == d2 and classes[s1][0] == classes[s2][0] and classes[d1][0] != classes[s1][0]:
+                    return True
     return has_shadow_class(mods) or any(
         classes[s][0] != classes[d][0] and in_known_class(mods, classes[s][0], classes[d][0], b, opts.get("use_exact_imports")) for s, d, b in edges)
 
